@@ -165,11 +165,11 @@ package whispertool
 
 // ---------------------------------------------------------------- layout validation (C07)
 
-//@ spec validArchive(a ArchiveInfo) bool = a.secondsPerPoint > 0 && a.numberOfPoints > 0
+//@ spec validArchive(a ArchiveInfo) opaque bool = a.secondsPerPoint > 0 && a.numberOfPoints > 0
 //@ spec retention(a ArchiveInfo) int = a.secondsPerPoint * a.numberOfPoints
 //@ spec pairOK(a ArchiveInfo, b ArchiveInfo) opaque bool = a.secondsPerPoint < b.secondsPerPoint && b.secondsPerPoint % a.secondsPerPoint == 0
 //@        && retention(a) < retention(b) && a.numberOfPoints >= b.secondsPerPoint / a.secondsPerPoint
-//@ spec fits32(a ArchiveInfo) bool = retention(a) <= 2147483647 && a.offset + 12 * a.numberOfPoints <= 4294967295
+//@ spec fits32(a ArchiveInfo) opaque bool = retention(a) <= 2147483647 && a.offset + 12 * a.numberOfPoints <= 4294967295
 //@ spec wellFormed(aa ArchiveInfoList) bool = len(aa) > 0 && aa[0].offset == 16 + 12 * len(aa)
 //@        && (forall i :: 0 <= i && i < len(aa) ==> validArchive(aa[i]) && fits32(aa[i]))
 //@        && (forall i :: 0 <= i && i + 1 < len(aa) ==> pairOK(aa[i], aa[i+1]) && aa[i+1].offset == aa[i].offset + 12 * aa[i].numberOfPoints)
@@ -198,3 +198,57 @@ package whispertool
 //@   invariant each: forall j :: 0 <= j && j < i ==> validArchive(aa[j]) && fits32(aa[j])
 //@   invariant pairs: forall j :: 0 <= j && j + 1 < len(aa) && j < i ==> pairOK(aa[j], aa[j+1])
 //@   invariant chain: forall j :: 0 <= j && j + 1 < i ==> aa[j+1].offset == aa[j].offset + 12 * aa[j].numberOfPoints
+
+//@ func (ArchiveInfoList).fillOffset
+//@   props C07 C06
+//@   modifies aa[0:len(aa)]
+//@   ensures fields: forall j :: 0 <= j && j < len(aa) ==> aa[j].secondsPerPoint == old(aa[j].secondsPerPoint) && aa[j].numberOfPoints == old(aa[j].numberOfPoints)
+//@   ensures first: len(aa) > 0 ==> aa[0].offset == (16 + 12 * len(aa)) fmod 4294967296
+//@   ensures chain: forall j :: 0 <= j && j + 1 < len(aa) ==> aa[j+1].offset == (aa[j].offset + 12 * aa[j].numberOfPoints) fmod 4294967296
+//@ loop (ArchiveInfoList).fillOffset#0
+//@   invariant bounds: 0 <= i && i <= len(aa)
+//@   invariant fields: forall j :: 0 <= j && j < len(aa) ==> aa[j].secondsPerPoint == old(aa[j].secondsPerPoint) && aa[j].numberOfPoints == old(aa[j].numberOfPoints)
+//@   invariant first: i > 0 ==> aa[0].offset == (16 + 12 * len(aa)) fmod 4294967296
+//@   invariant off0: i == 0 ==> off == (16 + 12 * len(aa)) fmod 4294967296
+//@   invariant offn: i > 0 ==> off == (aa[i-1].offset + 12 * aa[i-1].numberOfPoints) fmod 4294967296
+//@   invariant chain: forall j :: 0 <= j && j + 1 < i ==> aa[j+1].offset == (aa[j].offset + 12 * aa[j].numberOfPoints) fmod 4294967296
+
+//@ spec validHeader(h Header) bool = 1 <= h.aggregationMethod && h.aggregationMethod <= 6
+//@        && 0.0 <= h.xFilesFactor && h.xFilesFactor <= 1.0 && wellFormed(h.archiveInfoList)
+
+//@ func NewHeader
+//@   props C07
+//@   modifies archiveInfoList[0:len(archiveInfoList)]
+//@   ensures iff: result1 == nil <==> (1 <= aggregationMethod && aggregationMethod <= 6 && 0.0 <= xFilesFactor && xFilesFactor <= 1.0 && wellFormed(archiveInfoList))
+//@   ensures ok: result1 == nil ==> result0 != nil && fresh(result0) && validHeader(*result0) && result0.aggregationMethod == aggregationMethod
+//@                 && bits(result0.xFilesFactor) == bits(xFilesFactor) && result0.archiveInfoList === archiveInfoList
+//@                 && result0.archiveCount == len(archiveInfoList)
+//@                 && result0.maxRetention == retention(archiveInfoList[len(archiveInfoList)-1])
+//@   ensures fail: result1 != nil ==> result0 == nil
+
+//@ func (*Header).AppendTo
+//@   props C14 C06
+//@   requires h != nil
+//@   modifies dst[len(dst):cap(dst)]
+//@   ensures length: len(result) == len(dst) + 16 + 12 * len(h.archiveInfoList)
+//@   ensures off: result.off == dst.off
+//@   ensures rest: forall j :: j < dst.off + len(dst) || j >= dst.off + len(dst) + 16 + 12 * len(h.archiveInfoList) ==> at(result, j) == old(at(dst, j))
+//@   ensures enc_meta: be32(result, len(dst)) == h.aggregationMethod fmod 4294967296 && be32(result, len(dst) + 4) == h.maxRetention fmod 4294967296
+//@                 && be32(result, len(dst) + 8) == bits(h.xFilesFactor) && be32(result, len(dst) + 12) == h.archiveCount
+//@   ensures enc_archives: forall i :: 0 <= i && i < len(h.archiveInfoList) ==>
+//@                 be32(result, len(dst) + 16 + 12 * i) == h.archiveInfoList[i].offset
+//@                 && be32(result, len(dst) + 20 + 12 * i) == h.archiveInfoList[i].secondsPerPoint fmod 4294967296
+//@                 && be32(result, len(dst) + 24 + 12 * i) == h.archiveInfoList[i].numberOfPoints
+//@   ensures alias: fresh(result) || result === dst[0:len(dst) + 16 + 12 * len(h.archiveInfoList)]
+//@ loop (*Header).AppendTo#0
+//@   invariant bounds: 0 <= i && i <= len(h.archiveInfoList)
+//@   invariant length: len(dst) == len(entry(dst)) + 16 + 12 * i
+//@   invariant off: dst.off == entry(dst).off
+//@   invariant rest: forall j :: j < entry(dst).off + len(entry(dst)) || j >= entry(dst).off + len(entry(dst)) + 16 + 12 * i ==> at(dst, j) == old(at(entry(dst), j))
+//@   invariant meta: be32(dst, len(entry(dst))) == h.aggregationMethod fmod 4294967296 && be32(dst, len(entry(dst)) + 4) == h.maxRetention fmod 4294967296
+//@                 && be32(dst, len(entry(dst)) + 8) == bits(h.xFilesFactor) && be32(dst, len(entry(dst)) + 12) == h.archiveCount
+//@   invariant archives: forall k :: 0 <= k && k < i ==>
+//@                 be32(dst, len(entry(dst)) + 16 + 12 * k) == h.archiveInfoList[k].offset
+//@                 && be32(dst, len(entry(dst)) + 20 + 12 * k) == h.archiveInfoList[k].secondsPerPoint fmod 4294967296
+//@                 && be32(dst, len(entry(dst)) + 24 + 12 * k) == h.archiveInfoList[k].numberOfPoints
+//@   invariant alias: dst.arr > old(top) || dst === entry(dst)[0:len(entry(dst)) + 16 + 12 * i]
